@@ -733,6 +733,42 @@ theorem compute_weights_source_eq_model (ex : K → K) (samples : List K) (sched
     simp only [Gen.Trapezoid.compute_weights, computeWeights, if_true, e, hne', hlast, hgl, if_false,
       hv, trapezoid_source_eq_model, postWeights, diffs_eq_zipWith, List.map_zipWith]
 
+/-- the schedule statement of `compute_weights`, read with NumPy's tail-slice assignment, is the model's `scheduleOnePass`
+(integer `nlive`: all four cases — `nlive = 0`, `nlive ≤ len`, the broadcast of a single entry, and the `ValueError`s) -/
+theorem compute_weights_schedule_source_eq_model (len : Nat) (nl : NLive) :
+    Gen.Trapezoid.compute_weights_schedule len nl =
+      (match nl with
+       | .int n => scheduleOnePass len n
+       | .arr ns => if ns.length ≠ len then .error .valueErr else .ok ns) := by
+  cases nl with
+  | arr ns => rfl
+  | int n =>
+    have hcd : ∀ m, (countdown m).length = m := by
+      intro m; induction m with
+      | zero => rfl
+      | succ m ih => simp [countdown, ih]
+    simp only [Gen.Trapezoid.compute_weights_schedule, npAssignTail, scheduleOnePass, List.length_replicate, hcd]
+    by_cases h0 : n = 0
+    · subst h0
+      by_cases hl : len = 0
+      · subst hl; simp [countdown]
+      · have : ¬ (0 = len) := fun h => hl h.symm
+        simp [hl, this, countdown]
+    · by_cases hle : n ≤ len
+      · have hk : (if n = 0 ∨ len < n then len else n) = n := if_neg (by omega)
+        rw [hk]
+        simp [h0, hle]
+      · have hk : (if n = 0 ∨ len < n then len else n) = len := if_pos (by omega)
+        have h2 : ¬ (n = len) := by omega
+        rw [hk, if_neg h2, if_neg h0, if_neg hle]
+        by_cases hn1 : n = 1
+        · subst hn1
+          have : len = 0 := by omega
+          subst this
+          simp [countdown]
+        · obtain ⟨m, rfl⟩ : ∃ m, n = m + 2 := ⟨n - 2, by omega⟩
+          simp [countdown, hn1]
+
 example : Gen.Trapezoid.get_logx_live_points (fun x => x) (1 : ℚ) "T" 3 = none := by
   simp [Gen.Trapezoid.get_logx_live_points]
 
